@@ -111,11 +111,13 @@ type world struct {
 	funding []*wire.MsgTx
 	sent    []*wire.MsgTx
 	// imported accounts (acctw.go)
-	leases12   map[wire.OutPoint]lease12 // wallet-level C12
-	builtWhole *wire.MsgTx
-	relabel    string // prefix put in front of every signature (wallet-level C10: after a fired fault)
-	imported   []importedAcct
-	impIssued  []impIssued
+	leases12                     map[wire.OutPoint]lease12 // wallet-level C12
+	builtWhole                   *wire.MsgTx
+	relabel                      string                  // prefix put in front of every signature (wallet-level C10: after a fired fault)
+	confirmedAtStart             map[chainhash.Hash]bool // wallet-authored txs confirmed when the wallet was last started
+	unconfirmedByReorgAfterStart map[chainhash.Hash]bool // ... and un-confirmed by a reorg since
+	imported                     []importedAcct
+	impIssued                    []impIssued
 }
 
 // ownSigs: signature prefixes a wallet-level facet of a property may report.
@@ -159,6 +161,7 @@ func (x *world) fail(sig, format string, a ...any) {
 func newWorld(env *core.Env, p *core.Plan) (*world, error) {
 	x := &world{env: env, p: p, prop: p.Prop, byAddr: map[string]int{}, acctKeys: map[string]*hdkeychain.ExtendedKey{},
 		byScript: map[string]int{}, lockedOps: map[wire.OutPoint]bool{}, leases: map[wire.OutPoint]time.Time{}, leases12: map[wire.OutPoint]lease12{},
+		confirmedAtStart: map[chainhash.Hash]bool{}, unconfirmedByReorgAfterStart: map[chainhash.Hash]bool{},
 		paidHighestMined: map[string]int64{}, firstPayHeight: -1, scanMin: -1}
 	r := core.NewRand(core.Mix(p.Seed, 0x77a11e7))
 	txauthor.VerifSeedCPRNG(int64(core.Mix(p.Seed, 0xc9) >> 1)) // overlay probe: change position is a function of the plan
